@@ -133,7 +133,16 @@ func (q *fwdQueue) early() bool {
 var timerShapes = []struct {
 	ratio float64
 	ttl   int
-}{{0.5, 4}, {0.5, 3}, {0.75, 5}}
+}{{0.5, 4}, {0.5, 3}, {0.75, 5}, {0.5, 6}}
+
+// timerJitter: the shape with ttl 6 runs with a jitter bound of 0.1: the drawn jitter reaches the real queue
+// (lifetime in (5,6] s, ratio in [0.4, 0.6]: delay in (2, 3.6] s, grace > 2 s)
+func timerJitter(ttl int) float64 {
+	if ttl == 6 {
+		return 0.1
+	}
+	return 0
+}
 
 func genTimer(seed uint64, n int, path string) {
 	out := wire.Create(path)
@@ -322,7 +331,7 @@ func timerAttempt(t []string) (string, bool) {
 		return "bad-op", true
 	}
 	stale := t[4] == "1"
-	s := newSUT(ratio, 0, false)
+	s := newSUT(ratio, timerJitter(ttl), false)
 	defer s.close()
 	fq := &fwdQueue{inner: queue.NewDelayed(queue.DelayQueueBuffer(0))}
 	stop := make(chan struct{})
